@@ -515,7 +515,7 @@ def plan(ctx):
             for n in ns:
                 cases.append({"kind": "syst", "n": n, "w": [float(x) for x in wp], "family": label, "pert": pname})
     ctx.bounds.update({"syst_cases": len(cases), "m_max": max(len(c["w"]) for c in cases), "n_max": max(c["n"] for c in cases)})
-    ctx.explore("systematic-partition", cases, chunksize=8)
+    ctx.explore("systematic-partition", cases, chunksize=32)
 
     mult = []
     for sizes in ([2, 1], [2, 2]):
